@@ -81,3 +81,11 @@ package data
 //@   modifies mapof(map[string]IItemAwareLocator)
 //@   ensures has(f.locators, name) && f.locators[name] == locator
 //@   ensures forall k string :: k != name ==> has(f.locators, k) == old(has(f.locators, k)) && f.locators[k] == old(f.locators[k])
+
+// Interface contract: reading the variables through the locator interface is one Call event (so that callers can
+// state "this evaluation read the variables then"); the map returned is a new one.
+//@ func IFlowDataLocator.CloneVariables
+//@   assumed
+//@   modifies fresh mapof(map[string]IItem)
+//@   emits Call(code("data|IFlowDataLocator.CloneVariables"), this)
+//@   ensures result != nil && fresh(result)
